@@ -7,7 +7,7 @@ squared distances are perfect squares, so that every double the real code comput
 
 
 # ----------------------------------------------------------------------------- case <-> line
-ORDER = ["method", "k", "check", "cb", "metric", "kern", "sh", "pts", "m", "km", "vs", "dump", "dv"]
+ORDER = ["method", "k", "check", "cb", "metric", "kern", "sh", "pts", "m", "km", "vs", "rng", "dump", "dv"]
 
 
 def case_line(topic, c):
@@ -17,7 +17,7 @@ def case_line(topic, c):
             v = c[key]
             if key in ("pts", "m", "km"):
                 v = ";".join(",".join(str(x) for x in row) for row in v)
-            elif key == "vs":
+            elif key in ("vs", "rng"):
                 v = ",".join(str(x) for x in v)
             toks.append("%s=%s" % (key, v))
     return " ".join(toks)
@@ -30,7 +30,7 @@ def parse_line(line):
         k, v = t.split("=", 1)
         if k in ("pts", "m", "km"):
             v = [[int(x) for x in row.split(",") if x != ""] for row in v.split(";")]
-        elif k == "vs":
+        elif k in ("vs", "rng"):
             v = [int(x) for x in v.split(",") if x != ""]
         elif k in ("k", "sh"):
             v = int(v)
@@ -53,6 +53,47 @@ def subset(c, idx):
     for key in ("m", "km"):
         if key in c:
             d[key] = [[c[key][i][j] for j in idx] for i in idx]
+    if c.get("rng"):
+        d["rng"] = [c["rng"][i] for i in idx]
+    return d
+
+
+# ----------------------------------------------------------------------------- iterator ranges (element != position)
+def range_kind(c):
+    """identity | disjoint (every element >= N: no position is an element) | interleaved"""
+    ids = c.get("rng")
+    if not ids:
+        return "identity"
+    return "disjoint" if min(ids) >= len(ids) else "interleaved"
+
+
+def with_range(c):
+    """About half of all cases get `rng=`: the range handed to tapkee is data[p] = rng[p] (distinct non-negative ints,
+    a shuffled subset of a larger id space) instead of 0..N-1, so that an element (*iter, the sample id) and its position
+    differ — code that passes a loop position where the element is meant reaches the harness callbacks with an id that is
+    not in the range (`foreign=`).  Half of those take all ids >= N (every position is a foreign id), the others
+    interleave with the positions.  Deterministic: SplitMix64 seeded by the case text (which derives from ctx.rng).
+    The neighbour lists are positions either way: nothing changes on the model side."""
+    if "rng" in c or c.get("_norng"):
+        return c
+    import hashlib
+    import vlib
+    n = size(c)
+    if n < 1:
+        return c
+    text = case_line("x", {k: v for k, v in c.items() if not k.startswith("_")})
+    r = vlib.SplitMix64(int.from_bytes(hashlib.sha256(text.encode()).digest()[:8], "big"))
+    kind = r.below(4)
+    if kind < 2:
+        return c
+    d = dict(c)
+    if kind == 2:
+        space = list(range(n, 3 * n + 7))
+    else:
+        space = list(range(0, 2 * n + 5))
+    d["rng"] = r.shuffle(space)[:n]
+    if kind == 3 and d["rng"] == list(range(n)):
+        d["rng"] = d["rng"][::-1] if n > 1 else [1]
     return d
 
 
